@@ -576,7 +576,12 @@ class SymFloat:
         raise ModelGap("float() of a symbolic real")
 
     def __int__(self):
-        raise ModelGap("int() of a symbolic real")
+        """int() truncates toward zero; the integer part is concretised by forking."""
+        if self.nan is not None and bool(mk_bool(self.nan)):
+            raise ValueError("cannot convert float NaN to integer")
+        if bool(mk_bool(self.t >= 0)):
+            return cur().concretize(z3.ToInt(self.t))
+        return -cur().concretize(z3.ToInt(-self.t))
 
     def __repr__(self):
         return "SymFloat(%s%s)" % (self.t, '' if self.nan is None else ' nan?%s' % self.nan)
